@@ -324,6 +324,24 @@ empty @is_you(int x) { %s write('>'); }''' % (k1, k2, k1, body)
 
 TEMPLATES += _emission_order()
 
+TEMPLATES += [
+    # finding F10: the target of an assignment doubles as result register; `??` stores its right operand there first
+    ('spec_into_assigned_target', '''int g = 5; byte gb = 7; bool gt = true; int[] A = [1, 2, 3];
+int f(int p) { return p + 1; }
+byte fb(byte p) { return (p + 1) is byte; }
+bool ft(bool p) { return not p; }
+int rg() { return g; }
+empty @is_you(int a, int b) {
+  int l = a; byte lb = a is byte; bool lt = a > 0;
+  g = f(g) ?? b; write(g); write(' '); g = (f(g) ?? b) + 1; write(g); write(' '); g = a + (f(g) ?? b); write(g); write(' ');
+  g = -(f(g) ?? b); write(g); write(' '); g = A[((f(g) ?? b) %% 3 + 3) %% 3]; write(g); write(' '); g = f(f(g) ?? b); write(g); write(' ');
+  g = [f(g) ?? b, 4][0]; write(g); write(' '); g += f(g) ?? b; write(g); write(' '); g = rg() ?? b; write(g); write(' '); g = (g + 1) ?? b; write(g); write(' ');
+  l = f(l) ?? b; write(l); write(' '); l = -(f(l) ?? b); write(l); write(' '); A[1] = f(A[1]) ?? b; write(A[1]); write(' '); A[g %% 2] = (A[g %% 2] + 1) ?? 3; write(A[0]); write(A[1]); write(' ');
+  gb = fb(gb) ?? (b is byte); write(gb is int); write(' '); lb = fb(lb) ?? (b is byte); write(lb is int); write(' ');
+  gt = ft(gt) ?? (b > 0); write(gt); write(' '); lt = ft(lt) ?? (b > 0); write(lt);
+}'''.replace('%%', '%'), [[a, b] for a in (0, 3, 8) for b in (9, 6, 1, 0)]),
+]
+
 SCOPE_TEMPLATES = [
     ('loop_inside_try', '''int x = 0;
 empty !f() { !truth_is_defeat(x == 1); }
